@@ -49,6 +49,8 @@ type FuncSpec struct {
 	BV, FP   bool
 	Requires []Clause
 	Ensures  []Clause
+	GhostParams []QVar // logical variables: universally quantified inputs of the function's VC
+	Effects  []Clause // definitional ghost updates: assumed at call sites, not checked against the body
 	Modifies []string
 	Loops    map[int]*LoopSpec
 	NoPanic  bool
@@ -259,7 +261,7 @@ func (sp *Specs) ParseSpecLines(file string, raw []string, pkgPath string, ext b
 					curF.FP = true
 				}
 			}
-		case "requires", "ensures", "invariant", "decreases", "panics_if":
+		case "requires", "ensures", "invariant", "decreases", "panics_if", "effect":
 			c, err := parseClause(rest)
 			if err != nil {
 				return errf(i, "%v", err)
@@ -279,6 +281,8 @@ func (sp *Specs) ParseSpecLines(file string, raw []string, pkgPath string, ext b
 				curF.Requires = append(curF.Requires, c)
 			case kw == "ensures" && curF != nil:
 				curF.Ensures = append(curF.Ensures, c)
+			case kw == "effect" && curF != nil:
+				curF.Effects = append(curF.Effects, c)
 			case kw == "panics_if" && curF != nil:
 				curF.Panics = append(curF.Panics, c)
 			default:
@@ -440,6 +444,14 @@ func (sp *Specs) ParseSpecLines(file string, raw []string, pkgPath string, ext b
 			sp.Axioms = append(sp.Axioms, ax)
 			curF, curLoop, curT = nil, nil, nil
 		case "ghost":
+			if curF != nil && !strings.HasPrefix(rest, "var ") {
+				f := strings.Fields(rest)
+				if len(f) < 2 {
+					return errf(i, "ghost NAME TYPE")
+				}
+				curF.GhostParams = append(curF.GhostParams, QVar{f[0], strings.Join(f[1:], "")})
+				continue
+			}
 			f := strings.Fields(rest)
 			if len(f) < 3 || f[0] != "var" {
 				return errf(i, "ghost var NAME TYPE")
